@@ -43,9 +43,11 @@ def _expected_texts(msg: str) -> set:
             i += 2
             continue
         m = re.compile(r"%\((\w+)\)s").match(msg, i)
-        if m and m.group(1) in VARS:
-            out_keep.append(sub(m))
-            out_collapse.append(sub(m))
+        if m:
+            # a placeholder naming a variable that does not exist renders as the (default) undefined value: nothing
+            val = sub(m) if m.group(1) in VARS else ""
+            out_keep.append(val)
+            out_collapse.append(val)
             i = m.end()
             continue
         out_keep.append(msg[i])
@@ -140,7 +142,7 @@ def evaluate(case) -> Verdict:
         norm = lambda s: s  # noqa: E731
 
     o = oc.outcome_of(lambda: env.from_string(src).render(**data))
-    pct = "stray-percent" if re.search(r"%(?!\((x|y)\)s)", msg + (plural or "")) else "plain"
+    pct = "stray-percent" if re.search(r"%(?!\(\w+\)s)", msg + (plural or "")) else "plain"
     if o[0] != "ok":
         v.fail(f"{kind}:raises:{o[1]}:{pct}", f"{src!r} with {data!r:.120} -> {oc.short(o)}")
     elif norm(o[1]) not in {norm(w) for w in want}:
